@@ -1,0 +1,31 @@
+//! Verification hooks (only built with `--cfg ripgrep_verif`): the HIRs a
+//! matcher was actually built from, stashed at the point of use.
+#![allow(missing_docs)]
+
+use std::cell::RefCell;
+
+use regex_syntax::hir::Hir;
+
+thread_local! {
+    static FINAL: RefCell<Option<Hir>> = RefCell::new(None);
+    static LITERALS: RefCell<Option<Hir>> = RefCell::new(None);
+}
+
+pub(crate) fn reset() {
+    FINAL.with(|c| *c.borrow_mut() = None);
+    LITERALS.with(|c| *c.borrow_mut() = None);
+}
+
+pub(crate) fn stash_final(hir: &Hir) {
+    FINAL.with(|c| *c.borrow_mut() = Some(hir.clone()));
+}
+
+pub(crate) fn stash_literals(hir: &Hir) {
+    LITERALS.with(|c| *c.borrow_mut() = Some(hir.clone()));
+}
+
+/// The final HIR and the fast-line-regex HIR (if one was built) of the most
+/// recent `RegexMatcherBuilder::build_many` call on this thread.
+pub fn last_hirs() -> (Option<Hir>, Option<Hir>) {
+    (FINAL.with(|c| c.borrow().clone()), LITERALS.with(|c| c.borrow().clone()))
+}
